@@ -3,6 +3,7 @@ package main
 // C10 Type IIS digestion cuts at enzyme geometry.
 
 import (
+	"go/types"
 	"fmt"
 	"sort"
 	"strings"
@@ -398,6 +399,49 @@ func checkCutGeometry(c *Ctx, cut *ssa.Function) {
 					stR, whyR = broken, "reverse sites are searched even when the site is its own reverse complement: each palindromic site is cut twice"
 				}
 			}
+		}
+	}
+	// the meaning of the stored Position is the module's own business when every reader goes through a method
+	// of the record that works Position out together with other fields (an edge() accessor): then the stored
+	// number need not be the cut itself
+	encapsulated := false
+	view.each(func(g *ssa.Function, i ssa.Instruction) {
+		ci, ok := i.(ssa.CallInstruction)
+		if !ok {
+			return
+		}
+		m := ci.Common().StaticCallee()
+		if m == nil || m.Signature.Recv() == nil || !inModule(m) || m.Blocks == nil {
+			return
+		}
+		if !strings.HasSuffix(tname(m.Signature.Recv().Type()), "Overhang") {
+			return
+		}
+		readsPos, combines := false, false
+		eachInstr(m, func(j ssa.Instruction) {
+			switch x := j.(type) {
+			case *ssa.Field:
+				if st, isSt := x.X.Type().Underlying().(*types.Struct); isSt && st.Field(x.Field).Name() == "Position" {
+					readsPos = true
+				}
+			case *ssa.FieldAddr:
+				if storeFieldName(x) == "Position" {
+					readsPos = true
+				}
+			case *ssa.BinOp:
+				combines = true
+			}
+		})
+		if readsPos && combines {
+			encapsulated = true
+		}
+	})
+	if encapsulated {
+		if stF == broken && strings.Contains(whyF, "Position") {
+			stF = unknown
+		}
+		if stR == broken && strings.Contains(whyR, "Position") {
+			stR = unknown
 		}
 	}
 	c.judge(stF, "TERM-GEOM", "forward overhang = matchEnd+Skip, Length=OverhangLen", posF, "cut downstream of every forward site", whyF)
